@@ -523,7 +523,7 @@ let parse_hop (tok : string) : hop =
   | 'Q' -> HIterDrop (name_id body)
   | 'A' -> HScan
   | 'O' | 'N' -> HReopen
-  | 'C' | 'W' | 'X' | 'L' | 'T' | 'Z' | 'Y' | 'E' -> HOther
+  | 'C' | 'W' | 'X' | 'L' | 'T' | 'Z' | 'Y' | 'E' | 'V' -> HOther
   | _ -> failwith ("bad hop " ^ tok)
 
 let show_pairs (m : (n list * n list) list) : string =
@@ -927,6 +927,119 @@ let suite_gccheck (line : string) : string =
        | _ -> failwith "bad gc facts")
   | _ -> failwith "bad gccheck case"
 
+(* ---------- suite: stepcheck (every installed version change re-derived by the LSM model) ---------- *)
+let brackets (s : string) : string list =
+  (* "X[a][b][c]" -> ["a"; "b"; "c"] *)
+  let res = ref [] and depth = ref 0 and start = ref 0 in
+  String.iteri (fun i c ->
+    if c = '[' then (if !depth = 0 then start := i + 1; incr depth)
+    else if c = ']' then (decr depth; if !depth = 0 then res := String.sub s !start (i - !start) :: !res)) s;
+  List.rev !res
+
+let suite_stepcheck (line : string) : string =
+  match split_nonempty ' ' line with
+  | [ id; evs ] ->
+      let version = ref (List.init 7 (fun _ -> [])) in
+      let store : (n * (ikey * n list) list) list ref = ref [] in
+      let mfs = ref (n_of_int 4096) in
+      let recovering = ref false in
+      let pending = ref None in
+      let problems = ref [] in
+      let nsteps = ref 0 in
+      let complain msg = if List.length !problems < 3 then problems := msg :: !problems in
+      let entries_of nn = match List.assoc_opt nn !store with Some es -> es | None -> [] in
+      let nums_of fs = List.sort compare (List.map (fun f -> string_of_n f.fm_num) fs) in
+      List.iter
+        (fun ev ->
+          let args = brackets ev in
+          match ev.[0], args with
+          | 'O', [ m ] -> mfs := n_of_string m; recovering := true
+          | 'R', _ -> recovering := false
+          | 'C', [ level; in0; in1; ss ] ->
+              (* the inputs were selected on the version current at this moment *)
+              pending := Some (int_of_string level, split_nonempty ';' in0, split_nonempty ';' in1, n_of_string ss, !version)
+          | 'M', _ -> ()
+          | 'I', [ del; add; _seq ] ->
+              incr nsteps;
+              let dels = List.map (fun d -> match String.split_on_char ':' d with [ l; nn ] -> (int_of_string l, n_of_string nn) | _ -> failwith "del") (split_nonempty ';' del) in
+              let adds =
+                if add = "-" then []
+                else
+                  List.map
+                    (fun a ->
+                      match String.split_on_char '@' a with
+                      | [ l; num; size; range; ents ] ->
+                          let sm, lg = match String.split_on_char '~' range with [ x; y ] -> (x, y) | _ -> failwith "range" in
+                          let es = if ents = "unreadable" then (complain ("unreadable new table " ^ num); []) else parse_entries ents in
+                          (int_of_string l, { fm_num = n_of_string num; fm_size = n_of_string size; fm_small = parse_ikey sm; fm_large = parse_ikey lg }, es)
+                      | _ -> failwith ("bad add " ^ a))
+                    (String.split_on_char '+' add)
+              in
+              let v = !version in
+              (* bounds of every new file are its first and last entry *)
+              List.iter (fun (_, f, es) ->
+                if es <> [] && not (file_bounds_ok es f) then complain ("bounds of new file " ^ string_of_n f.fm_num ^ " are not its first/last entry")) adds;
+              (* a memtable flush may be installed in the middle of a running compaction *)
+              let pend = if dels = [] then None else !pending in
+              (match pend, dels, adds with
+               | Some (level, in0, in1, ss, v), _, _ ->
+                   pending := None;
+                   let lv = nat_of_int level in
+                   let f0 = files_of v lv (List.map n_of_string in0) and f1 = files_of v (S lv) (List.map n_of_string in1) in
+                   if List.length f0 <> List.length in0 || List.length f1 <> List.length in1 then
+                     complain (Printf.sprintf "compaction at level %d: inputs %s / %s are not files of levels %d / %d of the model's version" level (String.concat ";" in0) (String.concat ";" in1) level (level + 1))
+                   else begin
+                     let ci = { ci_level = lv; ci_in0 = f0; ci_in1 = f1; ci_grand = []; ci_pointer = None } in
+                     if version_wf v && not (inputs_closed v f0 ci) then
+                       complain (Printf.sprintf "compaction at level %d: inputs %s / %s are not closed" level (String.concat ";" in0) (String.concat ";" in1));
+                     let inputs = List.map (fun f -> entries_of f.fm_num) (f0 @ f1) in
+                     let kept = compact_entries ss (is_base_level_for_key v lv) inputs in
+                     let observed = List.concat (List.map (fun (_, _, es) -> es) adds) in
+                     if kept <> observed then
+                       complain (Printf.sprintf "compaction at level %d (smallest snapshot %s): outputs differ from the model's merge: model keeps %d entries, implementation wrote %d" level (string_of_n ss) (List.length kept) (List.length observed));
+                     if List.exists (fun (l, _, _) -> l <> level + 1) adds then complain "compaction output not at level+1";
+                     let expect_del = List.sort compare (List.map (fun f -> (level, f.fm_num)) f0 @ List.map (fun f -> (level + 1, f.fm_num)) f1) in
+                     if List.sort compare dels <> expect_del then complain "compaction edit does not delete exactly its inputs"
+                   end
+               | None, [ (dl, dn) ], [ (al, f, _) ] when f.fm_num = dn ->
+                   (* trivial move *)
+                   let lv = nat_of_int dl in
+                   if al <> dl + 1 then complain "trivial move not to level+1";
+                   (match finalize_inputs true true !mfs v lv (files_of v lv [ dn ]) with
+                    | Some ci ->
+                        if nums_of ci.ci_in0 <> [ string_of_n dn ] || ci.ci_in1 <> [] || not (is_trivial_move !mfs ci) then
+                          complain (Printf.sprintf "file %s moved from level %d although the model does not allow a trivial move" (string_of_n dn) dl)
+                    | None -> complain "model panics on trivial move inputs")
+               | None, [], _ ->
+                   List.iter
+                     (fun (l, f, es) ->
+                       store := (f.fm_num, es) :: !store;
+                       if es <> [] then begin
+                         let expect =
+                           if !recovering then 0
+                           else int_of_nat (pick_level_for_memtable_output v !mfs f.fm_small.ik_user f.fm_large.ik_user) in
+                         if l <> expect then
+                           complain (Printf.sprintf "flushed table %s placed at level %d, model says %d" (string_of_n f.fm_num) l expect)
+                       end)
+                     adds
+               | None, _, _ -> complain "version change that is neither a flush, a compaction nor a trivial move");
+              List.iter (fun (_, f, es) -> if not (List.mem_assoc f.fm_num !store) then store := (f.fm_num, es) :: !store) adds;
+              (* a moved file keeps its entries *)
+              let edit = { ve_deleted = List.map (fun (l, nn) -> (nat_of_int l, nn)) dels;
+                           ve_added = List.map (fun (l, f, _) -> (nat_of_int l, f)) adds } in
+              (match apply_edit v edit with
+               | None -> complain "the model's VersionBuilder panics on this change (overlap in a level)"
+               | Some v' ->
+                   version := v';
+                   if not (version_wf v') then complain "version not well formed after the change")
+          | _ -> ())
+        (String.split_on_char '|' evs);
+      Printf.sprintf "%s %s steps=%d" id
+        (if !problems = [] then "ok" else String.concat ";;" (List.rev_map (fun x -> String.map (fun c -> if c = ' ' then '_' else c) x) !problems))
+        !nsteps
+  | [ id ] -> id ^ " ok steps=0"
+  | _ -> failwith "bad stepcheck case"
+
 let () =
   let suite = Sys.argv.(1) in
   let f =
@@ -947,6 +1060,7 @@ let () =
     | "sched" -> suite_sched
     | "codec" -> suite_codec
     | "gccheck" -> suite_gccheck
+    | "stepcheck" -> suite_stepcheck
     | _ -> failwith ("unknown suite " ^ suite)
   in
   try
